@@ -42,11 +42,11 @@ NORMAL_QVEL = {"Ant", "HalfCheetah", "InvertedDoublePendulum"}
 
 def units(tier):
     quick = tier == "quick"
-    u = [{"name": f"finite{i}", "timeout": 1500} for i in range(2 if quick else 4)]
+    # the 16 workers take units in this order: most expensive compilations first
+    u = [] if quick else [{"name": "g1", "timeout": 3000}]
+    u += [{"name": f"mj-{n}", "timeout": 2400} for n in (MUJOCO_QUICK if quick else MUJOCO_ALL[::-1])]
+    u += [{"name": f"finite{i}", "timeout": 1500} for i in range(2 if quick else 4)]
     u += [{"name": f"cc-{n}", "timeout": 1500} for n in CLASSIC]
-    u += [{"name": f"mj-{n}", "timeout": 2400} for n in (MUJOCO_QUICK if quick else MUJOCO_ALL)]
-    if not quick:
-        u.append({"name": "g1", "timeout": 3000})
     return u
 
 
